@@ -40,7 +40,8 @@ func certificatePrefix(id sdk.Address) []byte {
 }
 
 func certificateSerialFromKey(key []byte) big.Int {
-	if len(key) < keyAddrPrefixLen+1 {
+	// serial number 0 encodes to zero bytes, so a key may consist of the prefix and address only
+	if len(key) < keyAddrPrefixLen {
 		panic("invalid key size")
 	}
 
